@@ -12,7 +12,7 @@ from typing import Any, Dict, List, Optional, Tuple
 from icv import tlc
 
 DEF_SWITCHES = ["SwNoOwnEmptyInvList", "SwKeepBasePre", "SwSnapAnyChecker", "SwDropForeign", "SwWrapByLast",
-                "SwRebindWrapped", "SwShareGroups", "SwShadow"]
+                "SwRebindWrapped", "SwShareGroups", "SwRecollapse", "SwShadow"]
 DEF_ALL_OFF = {n: False for n in DEF_SWITCHES}
 DEF_INVARIANTS = ["EffPreEqRef", "EffPostEqRef", "EffSnapEqRef", "EffInvEqRef", "RejectedExactly", "NoSharedInvList",
                   "SingleChecker", "ForeignKept", "RegisteredOnce"]
@@ -145,6 +145,19 @@ class DefRuntime:
         ic = self.ic
         st = self.hist["cls"][k - 1]
         try:
+            if st.get("clone_of"):
+                # the class is re-created from the dictionary of an existing one, as dataclass(slots=True) does
+                orig = self.classes[st["clone_of"]]
+                nsp0 = dict(orig.__dict__)
+                nsp0.pop("__dict__", None)
+                nsp0.pop("__weakref__", None)
+                cls = type(orig)("K{}".format(k), orig.__bases__, nsp0)
+                for d in st["invs"][len(self.hist["cls"][st["clone_of"] - 1]["invs"]):]:
+                    on = self.hist["con"][d["c"] - 1]["on"]
+                    cls = ic.invariant(self.cond(d["c"], "inv"), check_on=getattr(ic.InvariantCheckEvent, on))(cls)
+                self.classes[k] = cls
+                self.ok[k] = True
+                return "ok"
             nsp = {}  # type: Dict[str, Any]
             setters = {}  # type: Dict[str, Any]
             for m in st["members"]:
